@@ -49,13 +49,13 @@ func (c *HarnessCfg) defaults() {
 		c.MaxAlloc = 16
 	}
 	if c.MaxAllocConcrete == 0 {
-		c.MaxAllocConcrete = 1 << 16
+		c.MaxAllocConcrete = 1 << 26
 	}
 	if c.Sched == "" {
 		c.Sched = "A"
 	}
 	if c.TimeoutMs == 0 {
-		c.TimeoutMs = 60000
+		c.TimeoutMs = 20000
 	}
 	if c.Solver == "" {
 		c.Solver = "z3"
@@ -193,17 +193,6 @@ func (ex *Explorer) worker(w int) {
 		res := in.runPath(ex.fn, p)
 		ex.record(in, res)
 		ex.done()
-		if in.solver.dead {
-			// restart a crashed solver
-			in.solver.Close()
-			ex.mergeStats(in.solver.stats)
-			nsv, err := NewSolver(ex.cfg.Solver, ex.cfg.TimeoutMs)
-			if err != nil {
-				fmt.Fprintln(os.Stderr, "cannot restart solver:", err)
-				os.Exit(2)
-			}
-			in.solver = nsv
-		}
 	}
 	ex.mergeStats(in.solver.stats)
 	if in.solver2 != nil {
@@ -236,6 +225,9 @@ func (ex *Explorer) record(in *Interp, r PathResult) {
 	defer ex.mu.Unlock()
 	ex.paths++
 	ex.outcomes[r.Outcome]++
+	if os.Getenv("SYMGO_PROGRESS") != "" {
+		fmt.Fprintf(os.Stderr, "path %d: %s %s steps=%d dec=%d vars=%d queue=%d\n", ex.paths, r.Outcome, r.Msg, r.Steps, r.NDec, r.NVars, len(ex.work))
+	}
 	ex.totalSteps += r.Steps
 	if r.Steps > ex.maxSteps {
 		ex.maxSteps = r.Steps
@@ -347,41 +339,106 @@ func (in *Interp) reportCex(kind, label, detail string) {
 	in.ex.addCex(c)
 }
 
-// check decides pc ∧ extra with the primary solver (routing hard arithmetic to
-// the integer back end first).
+// check decides pc ∧ extra. Queries whose formula contains multiplication/division
+// are raced between z3 (bit-blasting) and cvc5 --solve-bv-as-int=sum (integer
+// encoding): each decides a class of kernels the other cannot; the first definite
+// verdict wins and the loser is restarted.
 func (in *Interp) check(extra *Term, model bool) (Verdict, map[string]uint64, error) {
+	if os.Getenv("SYMGO_SLOW") != "" {
+		st := time.Now()
+		defer func() {
+			if d := time.Since(st); d > 2*time.Second {
+				ex := ""
+				if extra != nil {
+					ex = in.tt.expand(extra, 6)
+				}
+				fmt.Fprintf(os.Stderr, "SLOW %v at %s extra=%s\n", d, in.curSite(), ex)
+			}
+		}()
+	}
 	var want []*Term
 	if model {
 		want = in.vars
 	}
-	start := time.Now()
-	_ = start
-	if in.cfg.Solver == "z3" && extra != nil && in.hardArith(extra) {
-		if in.solver2 == nil {
-			s2, err := NewSolver("cvc5-int", in.cfg.TimeoutMs)
-			if err == nil {
-				in.solver2 = s2
-			}
+	if in.solver.dead {
+		in.restartSolver(&in.solver, in.cfg.Solver)
+	}
+	if in.cfg.Solver == "z3" && in.hardArith(extra) {
+		if in.solver2 == nil || in.solver2.dead {
+			in.restartSolver(&in.solver2, "cvc5-int")
 		}
-		if in.solver2 != nil && !in.solver2.dead {
-			v, m, err := in.solver2.Check(in.pc, extra, want)
-			if err == nil && v != Unknown {
-				return v, m, nil
-			}
+		if in.solver2 != nil {
+			return in.raceCheck(extra, want)
 		}
 	}
 	v, m, err := in.solver.Check(in.pc, extra, want)
 	if err != nil {
-		panic(pathEnd{kind: "solver", msg: err.Error()})
+		in.solver.Close()
+		return Unknown, nil, nil
 	}
 	return v, m, err
+}
+
+func (in *Interp) restartSolver(sp **Solver, name string) {
+	if *sp != nil {
+		(*sp).Close()
+		in.ex.mergeStats((*sp).stats)
+	}
+	s, err := NewSolver(name, in.cfg.TimeoutMs)
+	if err != nil {
+		*sp = nil
+		return
+	}
+	*sp = s
+}
+
+type checkRes struct {
+	v   Verdict
+	m   map[string]uint64
+	err error
+	who int
+}
+
+func (in *Interp) raceCheck(extra *Term, want []*Term) (Verdict, map[string]uint64, error) {
+	ch := make(chan checkRes, 2)
+	pc := append([]*Term(nil), in.pc...)
+	s1, s2 := in.solver, in.solver2
+	go func() {
+		v, m, err := s1.Check(pc, extra, want)
+		ch <- checkRes{v, m, err, 1}
+	}()
+	go func() {
+		v, m, err := s2.Check(pc, extra, want)
+		ch <- checkRes{v, m, err, 2}
+	}()
+	first := <-ch
+	if first.err == nil && first.v != Unknown {
+		// give the other a short grace period, then kill it
+		select {
+		case <-ch:
+		case <-time.After(30 * time.Millisecond):
+			if first.who == 1 {
+				s2.Close()
+			} else {
+				s1.Close()
+			}
+			<-ch
+		}
+		in.stubsHit[fmt.Sprintf("solver-race won by %s", map[int]string{1: "z3", 2: "cvc5-int"}[first.who])]++
+		return first.v, first.m, nil
+	}
+	second := <-ch
+	if second.err == nil && second.v != Unknown {
+		return second.v, second.m, nil
+	}
+	return Unknown, nil, nil
 }
 
 func (in *Interp) hardArith(t *Term) bool {
 	if in.hardMemo == nil {
 		in.hardMemo = map[int]bool{}
 	}
-	if in.tt.usesHardArith(t, in.hardMemo) {
+	if t != nil && in.tt.usesHardArith(t, in.hardMemo) {
 		return true
 	}
 	for _, p := range in.pc {
@@ -450,6 +507,7 @@ func (in *Interp) branch(c *Term) bool {
 		case tSat && fSat:
 			in.pushAlt(0)
 			choice = 1
+			in.noteFork()
 		case tSat:
 			choice = 1
 		default:
@@ -489,6 +547,7 @@ func (in *Interp) choose(conds []*Term) int {
 		choice = feas[0]
 		for k := len(feas) - 1; k >= 1; k-- {
 			in.pushAlt(feas[k])
+			in.noteFork()
 		}
 	}
 	in.trace = append(in.trace, choice)
@@ -528,8 +587,10 @@ func (in *Interp) assertProp(c *Term, label string) {
 	}
 	d := in.decIdx
 	in.decIdx++
-	replay := d < len(in.prefix)
-	if !replay {
+	choice := 1 // 1 = proven on this path (implied by pc), 2 = violated somewhere: continue under the assumption that it holds
+	if d < len(in.prefix) {
+		choice = in.prefix[d]
+	} else {
 		nc := in.tt.Not(c)
 		var v Verdict
 		var model map[string]uint64
@@ -539,6 +600,7 @@ func (in *Interp) assertProp(c *Term, label string) {
 			v, model, _ = in.check(nc, true)
 		}
 		if v != Unsat {
+			choice = 2
 			model = in.withRanges(model)
 			cex := &Counterexample{Label: label, Kind: "assert", Values: model, Kinds: in.varKinds,
 				Trace: append([]int(nil), in.trace...), Notes: append([]string(nil), in.notes...), Harness: in.cfg.Name}
@@ -549,12 +611,15 @@ func (in *Interp) assertProp(c *Term, label string) {
 			in.ex.addCex(cex)
 		}
 	}
-	in.trace = append(in.trace, 1)
+	in.trace = append(in.trace, choice)
+	if choice == 1 {
+		return
+	}
 	if c.IsConst() {
 		panic(pathEnd{kind: "assertfail", msg: label})
 	}
 	in.pc = append(in.pc, c)
-	if !replay {
+	if d >= len(in.prefix) {
 		if v, _, _ := in.check(nil, false); v == Unsat {
 			panic(pathEnd{kind: "assertfail", msg: label})
 		}
@@ -569,4 +634,38 @@ func (in *Interp) withRanges(m map[string]uint64) map[string]uint64 {
 		m[k] = v
 	}
 	return m
+}
+
+var forkSites = map[string]int{}
+var forkMu sync.Mutex
+
+func (in *Interp) noteFork() {
+	if os.Getenv("SYMGO_FORKS") == "" {
+		return
+	}
+	site := in.curSite()
+	forkMu.Lock()
+	forkSites[site]++
+	forkMu.Unlock()
+}
+
+func dumpForks() {
+	if os.Getenv("SYMGO_FORKS") == "" {
+		return
+	}
+	type kv struct {
+		k string
+		v int
+	}
+	var l []kv
+	for k, v := range forkSites {
+		l = append(l, kv{k, v})
+	}
+	sort.Slice(l, func(i, j int) bool { return l[i].v > l[j].v })
+	for i, e := range l {
+		if i > 25 {
+			break
+		}
+		fmt.Fprintf(os.Stderr, "FORK %6d %s\n", e.v, e.k)
+	}
 }
